@@ -168,7 +168,7 @@ Fixpoint digits_val (s : str) (acc : Z) : option Z :=
 Definition int_of_str (s : str) : option Z :=
   match s with
   | [] => None
-  | 45%N :: (_ :: _) as d => match d with _ :: d' => option_map Z.opp (digits_val d' 0) | [] => None end
+  | 45%N :: c1 :: rest => option_map Z.opp (digits_val (c1 :: rest) 0)
   | _ => digits_val s 0
   end.
 
